@@ -1,39 +1,27 @@
 ------------------------------ MODULE LachesisAlt ------------------------------
-(* Search targets for TLC simulation: DAGs on which a *variant* of a rule changes the blocks.      *)
-(* The variants are deliberate mis-statements of the rules (tie counts as no; a decision needs      *)
-(* strictly more than a quorum); a DAG that separates a variant from the definition is exactly a    *)
-(* DAG on which an implementation following the variant would emit other blocks.  Such DAGs are     *)
-(* kept in corpus/ and replayed into the real code by the checks.                                   *)
+(* Search targets for TLC simulation: DAGs on which a *mis-stated* rule changes the outcome.        *)
+(* LachesisDef.tla is parameterised by the record Rule; StdRule is the definition.  Here a second    *)
+(* instance of the definitions is made with VariantRule (tie counts as no, a decision needs more     *)
+(* than a quorum, a root is registered only under its final frame, forkless cause ignores the fork   *)
+(* of B's creator / counts cheaters, a first event may climb).  The DAG is built with the standard   *)
+(* frames (what the specification accepts); a DAG on which the variant would reject an event or      *)
+(* choose other Atropoi is exactly a DAG on which an implementation following the variant deviates.  *)
+(* Such DAGs are kept in corpus/ and replayed into the real code by the checks.                      *)
 EXTENDS Lachesis
 
-CONSTANT Variant     \* "tie-no" | "strict-quorum"
+CONSTANT VariantRule
+Var == INSTANCE LachesisDef WITH Rule <- VariantRule
 
-RECURSIVE VoteYesA(_,_,_,_,_,_)
-YesWA(evf, ancf, r, f, v, d) == SumW({evf[x].cr : x \in {x \in Obs(evf, ancf, r, f) :  VoteYesA(evf, ancf, x, f - 1, v, d)}})
-NoWA(evf, ancf, r, f, v, d)  == SumW({evf[x].cr : x \in {x \in Obs(evf, ancf, r, f) : ~VoteYesA(evf, ancf, x, f - 1, v, d)}})
-VoteYesA(evf, ancf, r, f, v, d) ==
-  IF f = d + 1 THEN \E x \in RootsAt(evf, d) : evf[x].cr = v /\ FC(evf, ancf, r, x)
-  ELSE IF Variant = "tie-no" THEN YesWA(evf, ancf, r, f, v, d) > NoWA(evf, ancf, r, f, v, d)
-       ELSE YesWA(evf, ancf, r, f, v, d) >= NoWA(evf, ancf, r, f, v, d)
-QA == IF Variant = "strict-quorum" THEN Quorum + 1 ELSE Quorum
-TallyA(evf, ancf, r, f, v, d) ==
-  IF YesWA(evf, ancf, r, f, v, d) >= QA THEN "Y"
-  ELSE IF NoWA(evf, ancf, r, f, v, d) >= QA THEN "N" ELSE "-"
-SubjDecisionA(evf, ancf, v, d) ==
-  IF \E c \in Cands(evf, d) : TallyA(evf, ancf, c[1], c[2], v, d) = "Y" THEN "Y"
-  ELSE IF \E c \in Cands(evf, d) : TallyA(evf, ancf, c[1], c[2], v, d) = "N" THEN "N" ELSE "-"
-RECURSIVE FirstYesA(_,_,_,_)
-FirstYesA(evf, ancf, d, i) ==
-  IF i > N THEN 0
-  ELSE LET dec == SubjDecisionA(evf, ancf, i, d) IN
-       IF dec = "-" THEN 0 ELSE IF dec = "Y" THEN i ELSE FirstYesA(evf, ancf, d, i + 1)
-AtroposOfA(evf, ancf, d) ==
-  LET v == FirstYesA(evf, ancf, d, 1) IN
-  IF v = 0 THEN None
-  ELSE CHOOSE x \in RootsAt(evf, d) : evf[x].cr = v /\ \E r \in RootsAt(evf, d + 1) : FC(evf, ancf, r, x)
-RECURSIVE AtroposSeqA(_,_,_)
-AtroposSeqA(evf, ancf, d) == LET a == AtroposOfA(evf, ancf, d) IN IF a = None THEN <<>> ELSE <<a>> \o AtroposSeqA(evf, ancf, d + 1)
+\* the variant accepts every event (with its standard frame) ...
+VarAccepts == \A e \in Ids :
+    Var!Allowed([x \in anc[e] |-> ev[x]], [x \in anc[e] |-> anc[x]], anc[e], Var!SpFrame(ev, e), ev[e].sp # None, ev[e].fr)
+\* ... and would build the same frame for it ...
+VarBuildsSame == \A e \in Ids :
+    LET evs == [x \in anc[e] |-> ev[x]]  ans == [x \in anc[e] |-> anc[x]] IN
+    (IF ev[e].sp = None THEN Var!MaxAllowedNoSp(evs, ans, anc[e]) ELSE Var!MaxAllowed(evs, ans, anc[e], Var!SpFrame(ev, e)))
+      = (IF ev[e].sp = None THEN MaxAllowedNoSp(evs, ans, anc[e]) ELSE MaxAllowed(evs, ans, anc[e], SpFrame(ev, e)))
+\* ... and elects the same Atropoi
+VarSameAtropoi == Var!AtroposSeq(ev, anc, 1) = [i \in 1..Len(blocks) |-> blocks[i].atr]
 
-\* the variant yields the same Atropos sequence on the current DAG (violated => emit the separating DAG)
-VariantAgrees == AtroposSeqA(ev, anc, 1) = [i \in 1..Len(blocks) |-> blocks[i].atr] \/ (EmitState /\ FALSE)
+VariantAgrees == (VarAccepts /\ VarBuildsSame /\ VarSameAtropoi) \/ (EmitState /\ FALSE)
 =============================================================================
